@@ -1,4 +1,4 @@
-CONSTANTS Keys = {"k1"}  Vals = {1}  Ttls = {}  MaxT = 1  MaxCp = 1  MaxOps = 6  MaxIds = 4  UniqueIds = TRUE
+CONSTANTS Keys = {"k1"}  Vals = {1}  Ttls = {}  MaxT = 1  MaxCp = 1  MaxOps = 6  MaxIds = 4  DefTtl = 0  UniqueIds = TRUE
 INIT Init
 NEXT NextAtomic
 CONSTRAINT Bound
